@@ -196,3 +196,15 @@ Proof.
   rewrite <- (p_spine_rebuild (expand flags_current p)), H. reflexivity.
 Qed.
 Print Assumptions C13_deconstruct_nary_rebuilds_current_code.
+
+(** ================================================================================================
+    C13_source_*: the theorems stated of the functions GENERATED from the current source
+    (coq/Gen/PyPattern.v, rewritten from pattern.py / basic_interpreter.py on every run by translators/pypattern.py;
+    agreement with the model: coq/Py/GenPyPatternAgree.v). *)
+From Pi2 Require Import Py.GenSupport Gen.PyPattern Py.GenPyPatternAgree Py.SourceFacts.
+Theorem C13_source_match_rebuilds : forall se ss n p i seed th m r,
+  corner_free se ss p = true -> corner_free se ss i = true -> cfd se ss seed = true ->
+  match_single flags_current n p i seed = Some (Some th) -> src_instantiate m p th = Some r ->
+  expand flags_current r = expand flags_current i.
+Proof. exact source_match_rebuilds. Qed.
+Print Assumptions C13_source_match_rebuilds.
